@@ -13,12 +13,17 @@ Shapes == [method : {"GET", "POST", "M-X"},
            host : {"no", "first", "last"},                       \* does the caller supply Host (and where)
            cl : BOOLEAN, te : BOOLEAN,                           \* does the caller supply Content-Length / Transfer-Encoding
            content : {"none", "bytes0", "bytes5", "iter23", "iter050", "iterempty"},
-           bad : {"none", "method", "hname", "hvalue", "target"},
+           bad : {"none", "method", "hname", "hvalue", "target",       \* a head HTTP/1.1 cannot encode
+                  "h2te", "h2path"},                                   \* a head HTTP/2 cannot encode: TE other than
+                                                                       \* "trailers", an empty :path (a Connection field is
+                                                                       \* not one: the h2 layer drops it, RFC 9113 8.2.2)
            proto : {"h11", "h2"}]
 
 Valid(s) ==
   /\ ~(s.cl /\ s.te)
-  /\ (s.bad # "none" => s.proto = "h11")
+  /\ (s.bad \in {"method", "hname", "hvalue", "target"} => s.proto = "h11")
+  /\ (s.bad \in {"h2te", "h2path"} => s.proto = "h2")
+  /\ (s.bad = "h2path" => s.target = "ext")                          \* only the 'target' extension can give an empty :path
   /\ (s.te => s.content \in {"iter23", "iter050", "iterempty"})      \* chunked needs an iterator body
   /\ (s.cl => s.content # "none")
   /\ (s.content = "none" => s.method # "POST")
@@ -62,6 +67,8 @@ Lower(n) == CASE n = "X-A" -> "x-a" [] n = "B" -> "b" [] n = "C" -> "c" [] n = "
 HasBodyHeaders(s) == \E j \in DOMAIN WithDefaults(s) : Lower(WithDefaults(s)[j][1]) \in {"content-length", "transfer-encoding"}
 Authority(s) == IF s.host = "no" THEN "origin.test" ELSE "given.test"
 ExpectedH2(s) ==
+  IF s.bad # "none" THEN [kind |-> "LocalProtocolError", written |-> 0]       \* nothing of it is written
+  ELSE
   [kind |-> "ok",
    headers |-> << <<":method", s.method>>, <<":authority", Authority(s)>>, <<":scheme", "http">>, <<":path", TargetOf(s)>> >>
                \o SelectSeq([j \in DOMAIN WithDefaults(s) |-> <<Lower(WithDefaults(s)[j][1]), WithDefaults(s)[j][2]>>],
